@@ -1476,6 +1476,15 @@ pub fn do_wait(conn: &mut Conn<'_, '_>, kind: Wait, opts: Option<ExecOpts>) -> R
                     format!("message-not-delivered/after={}", res.name()),
                     format!("inbound PUBLISH {t} was consumed completely but {opname} returned {}", res.name()),
                 );
+                // C08: "every spec-valid packet ... is accepted with exactly the field values
+                // sent" - this one was valid and within what the client advertised
+                if !res.is_fatal() && !w.raw_mode {
+                    w.violate(
+                        "C08",
+                        "valid-packet-not-accepted/inbound-publish-not-delivered".into(),
+                        format!("the valid inbound PUBLISH {t} was consumed but not handed to the application ({opname} returned {})", res.name()),
+                    );
+                }
                 w.conns[cur].expect_deliver.clear();
             }
         }
@@ -1568,6 +1577,33 @@ pub fn do_wait(conn: &mut Conn<'_, '_>, kind: Wait, opts: Option<ExecOpts>) -> R
             }
         }
     });
+    // C17: "after everything has been acknowledged" nothing is held any more. The ledger says
+    // when that is: every accepted request of this session has had its final acknowledgement
+    // (successful or not), nothing is owed to the broker, and the client sits idle.
+    if res == Res::Cancelled && conn.is_connected() {
+        let settled = with(|w| {
+            let cur = w.cur;
+            let ep = w.epoch;
+            w.last_cancel_idle
+                && w.conns[cur].established
+                && !w.ids_ambiguous
+                && !w.session_ambiguous
+                && !w.raw_mode
+                && !w.cut
+                && w.conns[cur].owed_acks.is_empty()
+                && w.conns[cur].carry_acks.is_empty()
+                && w.reqs.iter().all(|r| r.epoch != ep || r.invalidated || r.qos == 0 || r.accept == Accept::NotAccepted || (r.accept == Accept::Accepted && !r.ambiguous && matches!(r.phase, Phase::Done(_))))
+        });
+        if settled && !conn.session().is_publish_quiescent() {
+            with(|w| {
+                w.violate(
+                    "C17",
+                    "not-quiescent-although-everything-is-acknowledged".into(),
+                    "every accepted request has had its final acknowledgement and nothing is owed, the client sits idle, yet the session still holds in-flight state".into(),
+                )
+            });
+        }
+    }
     after_op(conn);
     res
 }
